@@ -8,7 +8,7 @@ from spacepackets.seqcount import SeqCountProvider, FileSeqCountProvider, PusFil
 PROPERTY = "C19"
 OUTSIDE = ["a crash inside a call (between seek and write)", "non-ASCII file content", "real file-system semantics (the file "
            "is an in-memory text model: readline, seek(0), write overwrite without truncation in 'r+' mode, 'w' truncates)",
-           "first lines longer than the listed number of characters in the rejection clause", "widths above 24 bits"]
+           "first lines longer than the listed number of characters in the rejection clause", "widths other than those listed (quick: 1,2,3,8,14,16,24,32; thorough: 1..16,20,24,32,48)"]
 ASSUMPTIONS = ["by induction over calls: from any state `count` in range one call returns count and leaves (count+1) mod "
                "2^width; a new object starts at 0; hence every returned value is in range for call sequences of any length",
                "file provider: the state between calls is the file content; from a file whose first line is the decimal "
@@ -191,7 +191,7 @@ def h_file_range(ctx, w):
 
 def cases(tier):
     cs = []
-    for w in tier_pick(tier, (1, 2, 3, 8, 14, 16), tuple(range(1, 17)) + (24,)):
+    for w in tier_pick(tier, (1, 2, 3, 8, 14, 16, 24, 32), tuple(range(1, 17)) + (20, 24, 32, 48)):
         cs.append(Case("mem-w%d" % w, "mem", h_mem, dict(w=w), bounds="every count 0..2^%d-1" % w))
         for rn, residue in (("clean", ""), ("residue", "383\n")):
             cs.append(Case("file-w%d-%s" % (w, rn), "file", h_file_step, dict(w=w, residue=residue),
